@@ -49,9 +49,14 @@ def ReadLinesByKey(callback: Callable[[_T, str], Any]) -> Callable[[_T, str], An
 
     def read_lines_by_key(key: _T, s: str) -> None:
         buffer[key] += s
-        if s.endswith('\n'):
-            line = buffer.pop(key)
-            callback(key, line)
+        # Emit up to the last newline and keep the remainder in the buffer.
+        lines, newline, remainder = buffer[key].rpartition('\n')
+        if newline:
+            if remainder:
+                buffer[key] = remainder
+            else:
+                del buffer[key]
+            callback(key, lines + newline)
 
     return read_lines_by_key
 
